@@ -58,6 +58,10 @@ pub struct Stack {
     /// netcode client id of a harness client when it differs from its own number (cfg "alias": two clients holding tokens
     /// for ONE client id, from different addresses)
     alias: BTreeMap<u64, u64>,
+    /// cfg "share_up": client -> the earlier client whose relay socket (= address at the server) it shares
+    share: BTreeMap<u64, u64>,
+    /// after step "takeover": datagrams arriving for the earlier client's address reach the restarted one
+    route: BTreeMap<u64, u64>,
     intern: HashMap<Vec<u8>, i64>,
     stime: u64,
 }
@@ -114,9 +118,23 @@ impl Stack {
                 }
             }
         }
+        // cfg "share_up": a client that shows up at the server under the ADDRESS of an earlier one (the same relay socket):
+        // a client program restarted behind the same NAT binding, with a connect token of its own
+        let mut share: BTreeMap<u64, u64> = BTreeMap::new();
+        if let Some(m) = cfg.get("share_up").and_then(|a| a.as_object()) {
+            for (k, v) in m {
+                if let (Ok(k), Some(v)) = (k.parse::<u64>(), v.as_u64()) {
+                    share.insert(k, v);
+                }
+            }
+        }
         for c in cfg["clients"].as_array().cloned().unwrap_or_default() {
             let id = c.as_u64().unwrap_or(1);
             let netid = *alias.get(&id).unwrap_or(&id);
+            let up = match share.get(&id).and_then(|o| clients.get(o)).and_then(|o: &Cli| o.up.try_clone().ok()) {
+                Some(s) => s,
+                None => nb_socket(),
+            };
             let sock = UdpSocket::bind("127.0.0.1:0").expect("bind");
             let addr = sock.local_addr().unwrap();
             let token = ConnectToken::generate(Duration::ZERO, PROTO, 300, netid, geti(cfg, "timeout_s").max(1) as i32, vec![down.local_addr().unwrap()], None, &KEY)
@@ -128,7 +146,7 @@ impl Stack {
                     renet: RenetClient::new(config.clone()),
                     transport: t,
                     addr,
-                    up: nb_socket(),
+                    up,
                     held_up: vec![],
                     held_down: vec![],
                     stored_up: vec![],
@@ -143,6 +161,8 @@ impl Stack {
             down,
             clients,
             alias,
+            share,
+            route: BTreeMap::new(),
             intern: HashMap::new(),
             stime: 0,
         }
@@ -248,7 +268,8 @@ impl<W: Write> StackRunner<W> {
             let ids: Vec<u64> = w.clients.keys().copied().collect();
             for cid in ids {
                 let got = drain(&w.clients[&cid].up);
-                let c = w.clients.get_mut(&cid).unwrap();
+                let target = *w.route.get(&cid).unwrap_or(&cid);
+                let c = w.clients.get_mut(&target).unwrap();
                 for (b, from) in got {
                     if from == server_addr {
                         c.held_down.push(b);
@@ -453,6 +474,13 @@ impl<W: Write> StackRunner<W> {
                     let cs: Vec<Value> = ids.iter().map(|c| json!({"c":c,"cs":w.cstatus(*c)})).collect();
                     self.emit(json!({"ev":"round_end","cs":cs}));
                 }
+            }
+            "takeover" => {
+                // the program behind this address was restarted: from now on the address belongs to client `c`
+                if let Some(&old) = w.share.get(&id) {
+                    w.route.insert(old, id);
+                }
+                self.emit(json!({"ev":"takeover","c":id}));
             }
             "mark" => {
                 let mut v = st.clone();
